@@ -189,7 +189,7 @@ impl Scenario for RealHistory {
     fn generate(&self, g: &mut Gen, _tier: Tier, _idx: u64) -> Value {
         use crate::props::c07::gen_spec;
         // the 10 ordinary kinds plus samplers whose scalar type differs from the backend float
-        let kinds: Vec<&str> = crate::zoo::KINDS.iter().copied().chain(["hmc_t32_b64", "hmc_t64_b32", "nuts_t32_b64", "nuts_t64_b32"]).collect();
+        let kinds: Vec<&str> = crate::zoo::KINDS.iter().copied().chain(["hmc_t32_b64", "hmc_t64_b32", "nuts_t32_b64", "nuts_t64_b32", "hmc_1d_f64", "hmc_1d_f64"]).collect();
         let spec = gen_spec(g, &kinds);
         let kind = ps(&spec, "kind").to_string();
         let heavy = kind.starts_with("hmc") || kind.starts_with("nuts");
@@ -396,7 +396,7 @@ impl Scenario for RealHistory {
         out
     }
     fn rule(&self) -> &'static str {
-        "one run = a history of 1-3 run() calls on a real seeded sampler (10 kinds) under W simulated workers and a seeded schedule (1/8: real rayon); compared with the chains run individually/sequentially, with one long run, with manual stepping, and with the number of transitions in the draw trace; non-trivial = >= 2 context switches (single chain / HMC: any)"
+        "one run = a history of 1-3 run() calls on a real seeded sampler (15 kinds incl. mixed precision and a one-dimensional HMC state) under W simulated workers and a seeded schedule (1/8: real rayon); compared with the chains run individually/sequentially, with one long run, with manual stepping, and with the number of transitions in the draw trace; non-trivial = >= 2 context switches (single chain / HMC: any)"
     }
     fn components(&self) -> Value {
         json!({"real": ["MH/Gibbs via ChainRunner::run", "HMC::run", "NUTS::run", "NUTSChain::run"], "stub": ["pool = simulated workers", "harness targets"]})
